@@ -68,6 +68,12 @@ pub enum Mutn {
     LPlus,
     LMinus,
     BlindOther,
+    /// one more disclosed message than indexes
+    MsgSurplus,
+    /// one more index than disclosed messages
+    IndexSurplus(u16),
+    /// a second (index, message) entry under an index that is already listed
+    IndexRepeat(u16),
 }
 
 fn mutn() -> impl Strategy<Value = Mutn> {
@@ -89,6 +95,9 @@ fn mutn() -> impl Strategy<Value = Mutn> {
         1 => Just(Mutn::LPlus),
         1 => Just(Mutn::LMinus),
         1 => Just(Mutn::BlindOther),
+        1 => Just(Mutn::MsgSurplus),
+        1 => any::<u16>().prop_map(Mutn::IndexSurplus),
+        2 => any::<u16>().prop_map(Mutn::IndexRepeat),
     ]
 }
 
@@ -317,6 +326,19 @@ pub fn diff<CS: BbsCiphersuite>(rep: &Report, ck: &str, op: &Op) -> D {
                     dm.push(b"extra".to_vec());
                     idx.push(l);
                 }
+                Mutn::MsgSurplus => dm.push(b"never signed".to_vec()),
+                Mutn::IndexSurplus(i) => {
+                    // an index that is not listed yet (a repeated one is the same set: the library normalises it)
+                    let free: Vec<usize> = (0..=l).filter(|k| !idx.contains(k)).collect();
+                    idx.push(free[pick(*i, free.len())]);
+                    idx.sort();
+                }
+                Mutn::IndexRepeat(i) if !dm.is_empty() => {
+                    let k = pick(*i, dm.len());
+                    let at = k + (*i as usize % 2);
+                    dm.insert(at, if *i % 3 == 0 { dm[k].clone() } else { b"never signed".to_vec() });
+                    idx.insert(at, idx[k]);
+                }
                 Mutn::HeaderEdit => h = edit(&h),
                 Mutn::PhEdit => p = edit(&p),
                 Mutn::PkOther => pkb = KeyPair::<BBSplus<CS>>::generate(&[3u8; 32], None, None).unwrap().public_key().to_bytes().to_vec(),
@@ -427,6 +449,7 @@ pub fn diff<CS: BbsCiphersuite>(rep: &Report, ck: &str, op: &Op) -> D {
             };
             let mut dm: Vec<Vec<u8>> = di.iter().map(|&i| ms[i].clone()).collect();
             let mut dcm: Vec<Vec<u8>> = dci.iter().map(|&j| cm[j].clone()).collect();
+            let (mut di, mut dci) = (di, dci);
             let mut lv = l;
             let mut bfv = spb;
             let mut pkb = pk.to_bytes().to_vec();
@@ -456,6 +479,33 @@ pub fn diff<CS: BbsCiphersuite>(rep: &Report, ck: &str, op: &Op) -> D {
                     pb[bit / 8] ^= 1 << (bit % 8);
                     let bit = pick(*b, 640);
                     sb[bit / 8] ^= 1 << (bit % 8);
+                }
+                Mutn::MsgSurplus => {
+                    if st % 2 == 0 {
+                        dm.push(b"never signed".to_vec())
+                    } else {
+                        dcm.push(b"never signed".to_vec())
+                    }
+                }
+                Mutn::IndexSurplus(i) => {
+                    if i % 2 == 0 {
+                        let free: Vec<usize> = (0..=l).filter(|k| !di.contains(k)).collect();
+                        di.push(free[pick(*i, free.len())]);
+                        di.sort();
+                    } else {
+                        let free: Vec<usize> = (0..=mm).filter(|k| !dci.contains(k)).collect();
+                        dci.push(free[pick(*i, free.len())]);
+                        dci.sort();
+                    }
+                }
+                Mutn::IndexRepeat(i) => {
+                    let (d, ix) = if (i % 2 == 0 && !dm.is_empty()) || dcm.is_empty() { (&mut dm, &mut di) } else { (&mut dcm, &mut dci) };
+                    if !d.is_empty() {
+                        let k = pick(*i, d.len());
+                        let at = k + ((*i as usize >> 1) % 2);
+                        d.insert(at, if *i % 3 == 0 { d[k].clone() } else { b"never signed".to_vec() });
+                        ix.insert(at, ix[k]);
+                    }
                 }
                 Mutn::LPlus => lv += 1,
                 Mutn::LMinus if lv > 0 => lv -= 1,
@@ -627,7 +677,7 @@ pub fn run(ctx: &Ctx, rep: &Report) -> Meta {
     run_cases(ctx, rep, "schedules", ctx.tier.pick(48, 400), 60, schedule_strat, |s| run_schedule(rep, "schedules", s));
     Meta {
         rule: "generated operations: KeyGen/SkToPk (ikm 0..200 octets, key_info up to 65536, key_dst up to 300 or None), histories of create_generators(count, api_id) calls (count 0..=64 quick / 1100 thorough; api_id in {None, empty, both API ids, BLIND_-prefixed, random ASCII}), \
-               hash_to_scalar (dst up to 400 octets), messages_to_scalars, Sign, and verifier decisions on honest and mutated artefacts (message / header / ph / pk edits, bit flips, index shifts, whole-scalar framing edits, zero scalars, identity points, trailing bytes, L+-1, other blinding factor) \
+               hash_to_scalar (dst up to 400 octets), messages_to_scalars, Sign, and verifier decisions on honest and mutated artefacts (message / header / ph / pk edits, bit flips, index shifts, whole-scalar framing edits, zero scalars, identity points, trailing bytes, L+-1, other blinding factor, list shapes of the disclosed data: one more message than indexes, one more (unlisted) index than messages, a second entry under an index that is already listed) \
                for verify, proof_verify, blind_sign's commitment validation, verify_blind_sign, blind_proof_verify; proofs and commitments made by the library must be accepted by the reference and vice versa; \
                oracle: byte equality of outputs and equality of Ok/Err decisions with the independent reference model, which must first reproduce every fixture; \
                size sweep: Sign octets, proof and blind round trips for every L in 0..=72 (quick) / 0..=260 (thorough); a third of the operations after a warm-up history; schedules: lists of such operations executed by 2, 4 or 16 threads released from a barrier in rotated orders; non-trivial = every generated operation (none coincides with a fixture); evaluations = compared outputs / decisions"
